@@ -10,7 +10,9 @@ R5 every non-NONE WhatsModifiedFlag member is produced somewhere
 """
 import ast
 
-from ..core import AnalysisError, norm, loc, walk_no_nested, attr_chain, call_name
+from ..core import AnalysisError, norm, loc, walk_no_nested, attr_chain, call_name, func_params, kwarg
+from ..normalize import inline, local_env, expand, canon, ctext, branch_values, merge_outcomes, Unknown, eval_test, builders, comp_builder, _enclosing
+from .. import fieldwise as fw
 
 BASE = 'fim.slivers.base_sliver:BaseSliver'
 DIFF_CLASSES = ['fim.slivers.network_node:NodeSliver', 'fim.slivers.network_service:NetworkServiceSliver',
@@ -66,16 +68,20 @@ def run(prog, rep):
 
     for spec in DIFF_CLASSES:
         cls = prog.cls(spec)
-        fn = cls.methods.get('diff')
-        if fn is None:
+        fn0 = cls.methods.get('diff')
+        if fn0 is None:
             raise AnalysisError(f'{cls.qual}.diff vanished')
+        fn = inline(prog, cls, fn0, exclude=('_dict_diff', '_dict_common'))
         mod = cls.module
         fq = f'{cls.name}.diff'
         oth = other_param(fn)
+        # aliases (my_subs = self.interface_info) are expanded, computed values are not
+        aenv = {k: v for k, v in local_env(fn).items() if isinstance(v, (ast.Name, ast.Attribute, ast.Subscript))}
+        A = lambda e: expand(e, aenv)
         # R1
         for n in walk_no_nested(fn):
             if isinstance(n, ast.Call) and call_name(n) in ('_dict_diff', '_dict_common') and len(n.args) >= 2:
-                a_, b_ = n.args[0], n.args[1]
+                a_, b_ = A(n.args[0]), A(n.args[1])
                 ca, cb = attr_chain(a_), attr_chain(b_)
                 rep.instance('R1', f'{fq}: {norm(n, 120)}')
                 ok = ca and cb and ca[0] == 'self' and cb[0] == oth and ca[1:] == cb[1:]
@@ -83,78 +89,126 @@ def run(prog, rep):
                     rep.violation('R1', loc(mod, n), fq, norm(n, 140),
                                   f'{call_name(n)} must compare self.<path> with {oth}.<same path>; with other arguments '
                                   f'additions/removals of that container are misreported or never reported')
-        # R3 one-sided cases per container
-        containers = set()
+        # every element the two slivers have in common is compared: the elements handed to prop_diff range over _dict_common(...)
         for n in walk_no_nested(fn):
-            if isinstance(n, ast.If):
-                for sub in ast.walk(n.test):
-                    ch = attr_chain(sub) if isinstance(sub, ast.Attribute) else None
-                    if ch and len(ch) == 2 and ch[0] in ('self', oth) and ch[1].endswith('_info'):
-                        containers.add(ch[1])
-        for cont in sorted(containers):
-            cases = {'both': None, 'only_other': None, 'only_self': None}
-            for n in fn.body:
-                if isinstance(n, ast.If):
-                    t = ast.unparse(n.test)
-                    if t == f'self.{cont} and {oth}.{cont}':
-                        cases['both'] = n
-                    elif t == f'not self.{cont} and {oth}.{cont}':
-                        cases['only_other'] = n
-                    elif t == f'self.{cont} and (not {oth}.{cont})':
-                        cases['only_self'] = n
-            rep.instance('R3', f'{fq}: container {cont}: cases {[k for k, v in cases.items() if v is not None]}')
-            for k, v in cases.items():
-                if v is None:
-                    rep.violation('R3', loc(mod, fn), fq, f'{cont}: case {k} missing',
-                                  f'{fq} has no branch for the case "{k}" of {cont}: elements that exist on one side '
-                                  f'only are not reported')
-            # direction
-            if cases['only_other'] is not None:
-                for s in cases['only_other'].body:
-                    if isinstance(s, ast.Assign):
-                        tn = ast.unparse(s.targets[0])
-                        src = ast.unparse(s.value)
-                        rep.instance('R3', f'{fq}: only-other: {norm(s, 100)}')
-                        if 'added' not in tn or f'{oth}.{cont}' not in src:
-                            rep.violation('R3', loc(mod, s), fq, norm(s, 120),
+            if isinstance(n, ast.Call) and call_name(n) == 'prop_diff' and isinstance(n.func.value, ast.Name) and n.func.value.id != 'self':
+                var = n.func.value.id
+                src = None
+                for l in ast.walk(fn):
+                    if isinstance(l, ast.For) and any(isinstance(x, ast.Name) and x.id == var for x in ast.walk(l.target)):
+                        src = l.iter
+                    if isinstance(l, ast.comprehension) and any(isinstance(x, ast.Name) and x.id == var for x in ast.walk(l.target)):
+                        src = l.iter
+                full = expand(src, local_env(fn)) if src is not None else None
+                rep.instance('R1', f'{fq}: {var}.prop_diff(...) for {var} in {norm(src, 60) if src is not None else None}')
+                if full is None or not any(isinstance(c, ast.Call) and call_name(c) == '_dict_common' for c in ast.walk(full)) or \
+                        any(isinstance(c, ast.Call) and call_name(c) == '_dict_diff' for c in ast.walk(full)):
+                    rep.violation('R1', loc(mod, n), fq, f'{var}.prop_diff(...) over {norm(src, 70) if src is not None else "?"}',
+                                  f'the elements whose properties are compared do not range over all common elements (_dict_common of the two '
+                                  f'containers): common elements that the pre-selection considers equal (sliver == compares name and id only) are '
+                                  f'never compared, so a changed property of an existing element goes unreported')
+        # R3 one-sided cases per result collection, from the path-sensitive evaluation of the method
+        tds = [n for n in walk_no_nested(fn) if isinstance(n, ast.Call) and isinstance(n.func, ast.Name) and n.func.id == 'TopologyDiff']
+        if not tds:
+            raise AnalysisError(f'{fq}: TopologyDiff construction not found')
+        result_vars = {}
+        for kw in tds[0].keywords:
+            if kw.arg in ('added', 'removed') and isinstance(kw.value, ast.Call):
+                for k2 in kw.value.keywords:
+                    if isinstance(k2.value, ast.Name):
+                        result_vars[k2.value.id] = (kw.arg, k2.arg)
+                        v = k2.value.id
+                        rep.instance('R3', f'{fq}: TopologyDiff.{kw.arg}.{k2.arg} = {v}')
+
+        # a result collection may be produced under another name and handed over by (tuple) assignment
+        changed_ = True
+        while changed_:
+            changed_ = False
+            for st in walk_no_nested(fn):
+                if not isinstance(st, ast.Assign) or len(st.targets) != 1:
+                    continue
+                pairs_ = []
+                t0, v0 = st.targets[0], st.value
+                if isinstance(t0, ast.Name) and isinstance(v0, ast.Name):
+                    pairs_.append((t0.id, v0.id))
+                elif isinstance(t0, ast.Tuple) and isinstance(v0, ast.Tuple) and len(t0.elts) == len(v0.elts):
+                    pairs_ += [(a_.id, b_.id) for a_, b_ in zip(t0.elts, v0.elts) if isinstance(a_, ast.Name) and isinstance(b_, ast.Name)]
+                for tn, vn in pairs_:
+                    if tn in result_vars and vn not in result_vars:
+                        result_vars[vn] = result_vars[tn]
+                        result_vars.pop(tn)
+                        changed_ = True
+
+        class _O:
+            def __init__(self, stmt, value, nodes, target):
+                self.stmt, self.value, self.cond_nodes, self.target = stmt, value, nodes, target
+        by_var = {}
+        for st in walk_no_nested(fn):
+            if isinstance(st, ast.Assign) and len(st.targets) == 1 and isinstance(st.targets[0], ast.Name) and st.targets[0].id in result_vars:
+                v = st.value
+                if isinstance(v, ast.Call) and isinstance(v.func, ast.Name) and v.func.id in ('set', 'list') and not v.args:
+                    continue        # initialisation
+                _, conds_ = _enclosing(st, fn)
+                by_var.setdefault(st.targets[0].id, []).append(_O(st, v, list(conds_), st.targets[0]))
+        for var, (kind, slot) in sorted(result_vars.items()):
+            outs_ = by_var.get(var, [])
+            cases = {}
+            cont = None
+            for o in outs_:
+                val = A(expand(o.value, local_env(fn)))
+                conts = {ch[1] for x in ast.walk(val) if isinstance(x, ast.Attribute) for ch in [attr_chain(x)] if ch and len(ch) >= 2 and ch[0] in ('self', oth)
+                         and ch[1].endswith('_info')}
+                if len(conts) != 1:
+                    continue
+                cont = next(iter(conts))
+                sa, sb = f'self.{cont}', f'{oth}.{cont}'
+                possible = []
+                for ta in (True, False):
+                    for tb in (True, False):
+                        try:
+                            if all(eval_test(canon(A(n_)), {sa: ta, sb: tb}) for n_ in o.cond_nodes
+                                   if any(isinstance(x, ast.Attribute) and (attr_chain(x) or [None, None])[:2] in (['self', cont], [oth, cont]) for x in ast.walk(A(n_)))):
+                                possible.append((ta, tb))
+                        except Unknown:
+                            possible.append((ta, tb))
+                case = {((True, True),): 'both', ((False, True),): 'only_other', ((True, False),): 'only_self'}.get(tuple(possible))
+                cases.setdefault(case, []).append((o, val))
+            rep.instance('R3', f'{fq}: {var} ({kind} {slot}) of container {cont}: cases {sorted(str(k) for k in cases)}')
+            need = {'both', 'only_other'} if kind == 'added' else {'both', 'only_self'}
+            for k in sorted(need - set(cases)):
+                rep.violation('R3', loc(mod, fn0), fq, f'{cont}: case {k} missing',
+                              f'{fq} has no branch for the case "{k}" of {cont}: elements that exist on one side '
+                              f'only are not reported')
+            for case, lst in cases.items():
+                for o, val in lst:
+                    full = expand(o.value, local_env(fn))
+                    keys_ = [x.slice.value for x in ast.walk(full) if isinstance(x, ast.Subscript) and isinstance(x.slice, ast.Constant) and
+                             x.slice.value in ('added', 'removed', 'value_diffs')]
+                    if case == 'both':
+                        rep.instance('R3', f'{fq}: both: {var} = {norm(o.value, 80)}')
+                        if keys_ != [kind]:
+                            rep.violation('R3', loc(mod, o.stmt), fq, norm(o.stmt, 120),
+                                          f'result key {keys_} is stored into {var}: added/removed are crossed or the '
+                                          f'key does not exist in _dict_diff')
+                    elif case == 'only_other':
+                        rep.instance('R3', f'{fq}: only-other: {norm(o.stmt, 100)}')
+                        if kind != 'added' or f'{oth}.{cont}' not in ast.unparse(val):
+                            rep.violation('R3', loc(mod, o.stmt), fq, norm(o.stmt, 120),
                                           'when only the other (new) sliver has the container its elements are *added* '
                                           'and come from the other sliver')
-            if cases['only_self'] is not None:
-                for s in cases['only_self'].body:
-                    if isinstance(s, ast.Assign):
-                        tn = ast.unparse(s.targets[0])
-                        src = ast.unparse(s.value)
-                        rep.instance('R3', f'{fq}: only-self: {norm(s, 100)}')
-                        if 'removed' not in tn or f'self.{cont}' not in src:
-                            rep.violation('R3', loc(mod, s), fq, norm(s, 120),
+                    elif case == 'only_self':
+                        rep.instance('R3', f'{fq}: only-self: {norm(o.stmt, 100)}')
+                        if kind != 'removed' or f'self.{cont}' not in ast.unparse(val):
+                            rep.violation('R3', loc(mod, o.stmt), fq, norm(o.stmt, 120),
                                           'when only this (old) sliver has the container its elements are *removed* '
                                           'and come from this sliver')
-            if cases['both'] is not None:
-                for s in ast.walk(cases['both']):
-                    if isinstance(s, ast.Assign) and isinstance(s.value, ast.Call) and call_name(s.value) == 'set' \
-                            and s.value.args and isinstance(s.value.args[0], ast.Call):
-                        inner = s.value.args[0]
-                        if isinstance(inner.func, ast.Attribute) and isinstance(inner.func.value, ast.Subscript) \
-                                and isinstance(inner.func.value.slice, ast.Constant):
-                            key = inner.func.value.slice.value
-                            tn = ast.unparse(s.targets[0])
-                            rep.instance('R3', f'{fq}: both: {norm(s, 100)}')
-                            if key not in ('added', 'removed') or key not in tn:
-                                rep.violation('R3', loc(mod, s), fq, norm(s, 120),
-                                              f'result key {key!r} is stored into {tn}: added/removed are crossed or the '
-                                              f'key does not exist in _dict_diff')
-        # the final TopologyDiff: added= gets *_added, removed= gets *_removed
-        for n in walk_no_nested(fn):
-            if isinstance(n, ast.Call) and isinstance(n.func, ast.Name) and n.func.id == 'TopologyDiff':
-                for kw in n.keywords:
-                    if kw.arg in ('added', 'removed') and isinstance(kw.value, ast.Call):
-                        for k2 in kw.value.keywords:
-                            v = ast.unparse(k2.value)
-                            if v.endswith('_added') or v.endswith('_removed'):
-                                rep.instance('R3', f'{fq}: TopologyDiff.{kw.arg}.{k2.arg} = {v}')
-                                if not v.endswith('_' + kw.arg):
-                                    rep.violation('R3', loc(mod, k2.value), fq, f'TopologyDiff.{kw.arg}.{k2.arg} = {v}',
-                                                  f'the {kw.arg} tuple is filled from {v}')
+        for kw in tds[0].keywords:
+            if kw.arg in ('added', 'removed') and isinstance(kw.value, ast.Call):
+                for k2 in kw.value.keywords:
+                    v = ast.unparse(k2.value)
+                    if (v.endswith('_added') or v.endswith('_removed')) and not v.endswith('_' + kw.arg):
+                        rep.violation('R3', loc(mod, k2.value), fq, f'TopologyDiff.{kw.arg}.{k2.arg} = {v}',
+                                      f'the {kw.arg} tuple is filled from {v}')
         # R4 flag accumulation
         flag_vars = set()
         for n in walk_no_nested(fn):
@@ -186,23 +240,60 @@ def run(prog, rep):
     oth = other_param(pd)
     pairs = {'LABELS': 'get_labels', 'CAPACITIES': 'get_capacities', 'USER_DATA': 'get_user_data'}
     seen = {}
-    for n in pd.body:
-        if isinstance(n, ast.If) and isinstance(n.test, ast.Compare) and len(n.body) == 1 and \
-                isinstance(n.body[0], ast.AugAssign):
-            l, r = n.test.left, n.test.comparators[0]
-            getter_l = call_name(l) if isinstance(l, ast.Call) else None
-            getter_r = call_name(r) if isinstance(r, ast.Call) else None
-            flag = attr_chain(n.body[0].value)
-            fname = flag[-1] if flag else None
-            rep.instance('R4', f'prop_diff: {norm(n.test)} -> {fname}')
-            seen[fname] = (getter_l, getter_r)
+    pdi = inline(prog, base, pd)
+    penv = local_env(pdi)
+
+    def getter_of(e, var=None, table=None):
+        """(receiver, getter name) of  <recv>.get_x()  or  getattr(<recv>, <name>)()"""
+        if isinstance(e, ast.Call) and isinstance(e.func, ast.Attribute) and isinstance(e.func.value, ast.Name) and not e.args:
+            return e.func.value.id, e.func.attr
+        if isinstance(e, ast.Call) and isinstance(e.func, ast.Call) and isinstance(e.func.func, ast.Name) and e.func.func.id == 'getattr' and \
+                len(e.func.args) == 2 and isinstance(e.func.args[0], ast.Name):
+            nm = e.func.args[1]
+            if isinstance(nm, ast.Constant):
+                return e.func.args[0].id, nm.value
+            if isinstance(nm, ast.Name):
+                return e.func.args[0].id, ('$', nm.id)
+        return None, None
+    for n in ast.walk(pdi):
+        if not (isinstance(n, ast.If) and isinstance(n.test, ast.Compare) and len(n.test.ops) == 1 and n.body and isinstance(n.body[0], ast.AugAssign)):
+            continue
+        l, r = n.test.left, n.test.comparators[0]
+        (recv_l, getter_l), (recv_r, getter_r) = getter_of(l), getter_of(r)
+        if getter_l is None or getter_r is None:
+            continue
+        flag_expr = n.body[0].value
+        rows = []
+        if isinstance(getter_l, tuple):
+            # table driven: for <getter name>, <flag> in <constant table>
+            loop = n
+            while loop is not None and not isinstance(loop, ast.For):
+                loop = getattr(loop, '_parent', None)
+            if loop is None or not isinstance(loop.target, ast.Tuple):
+                raise AnalysisError('prop_diff: table-driven comparison without a recognisable table loop')
+            names = [e.id for e in loop.target.elts if isinstance(e, ast.Name)]
+            try:
+                table = prog.const_eval(loop.iter, base.module, base)
+            except Exception:
+                raise AnalysisError('prop_diff: comparison table is not a constant')
+            gi = names.index(getter_l[1])
+            fi = names.index(flag_expr.id) if isinstance(flag_expr, ast.Name) and flag_expr.id in names else None
+            if fi is None or getter_l != getter_r:
+                rep.violation('R4', loc(base.module, n), 'BaseSliver.prop_diff', norm(n.test), 'the table-driven comparison does not pair getter and flag')
+                continue
+            for row in table:
+                rows.append((row[gi], getattr(row[fi], 'name', str(row[fi])), row[gi]))
+        else:
+            ch = attr_chain(flag_expr)
+            rows.append((getter_l, ch[-1] if ch else None, getter_r))
+        for g_l, fname, g_r in rows:
+            rep.instance('R4', f'prop_diff: self.{g_l}() != {oth}.{g_r}() -> {fname}')
+            seen[fname] = (g_l, g_r)
             produced.add(fname)
             if not isinstance(n.test.ops[0], ast.NotEq) or not isinstance(n.body[0].op, ast.BitOr):
                 rep.violation('R4', loc(base.module, n), 'BaseSliver.prop_diff', norm(n.test),
                               'each tracked property must be compared with != and its flag OR-ed in')
-            recv_l = ast.unparse(l.func.value) if isinstance(l, ast.Call) and isinstance(l.func, ast.Attribute) else ''
-            recv_r = ast.unparse(r.func.value) if isinstance(r, ast.Call) and isinstance(r.func, ast.Attribute) else ''
-            if getter_l != getter_r or {recv_l, recv_r} != {'self', oth} or pairs.get(fname) != getter_l:
+            if g_l != g_r or {recv_l, recv_r} != {'self', oth} or pairs.get(fname) != g_l:
                 rep.violation('R4', loc(base.module, n), 'BaseSliver.prop_diff', norm(n.test),
                               f'flag {fname} must be set from comparing self.{pairs.get(fname)}() with '
                               f'{oth}.{pairs.get(fname)}()')
@@ -232,6 +323,22 @@ def run(prog, rep):
                           f'prop_diff compares {attr} values with != but {tcls.name} defines no __eq__: two equal-valued '
                           f'objects compare by identity and are reported as modified')
             continue
+        # field containers (Labels, Capacities ...): equality ranges over every field of the left value, so that it is symmetric
+        if any(c.simple == 'JSONField' for c in tcls.mro()):
+            try:
+                g_, viol_, node_, env_ = fw.forall_form(prog, owner, eq)
+                got = fw.norm_expr(viol_, g_, env_)
+                okf = g_.owner == 'self' and got in ('SELF_f != dflt(OTHER_f, None)', 'SELF_f != dflt(OTHER_f, 0)', 'SELF_f != OTHER_f', 'OTHER_f != SELF_f',
+                                                    'dflt(OTHER_f, None) != SELF_f', 'dflt(OTHER_f, 0) != SELF_f')
+                rep.instance('R2', f'{tcls.name}.__eq__: unequal iff some field of {g_.owner} has {got}')
+            except fw.NotFieldwise as e:
+                okf = False
+                rep.instance('R2', f'{tcls.name}.__eq__: not field-wise ({e})')
+            if not okf:
+                rep.violation('R2', loc(owner.module, eq), f'{owner.name}.__eq__', 'equality does not range over all fields of the value',
+                              f'{owner.name}.__eq__ must return False iff some field of the left value differs from the same field of the right '
+                              f'value, over all fields: ranging over a subset (e.g. only the fields that are set on the left) makes a == b '
+                              f'true while b == a is false, and prop_diff then reports a change in one direction only')
         # JSON blobs keep the caller's text: equality must be on the decoded value
         if any(c.simple == 'JSONData' for c in tcls.mro()):
             cmp_nodes = [n for n in ast.walk(eq) if isinstance(n, ast.Compare) and isinstance(n.ops[0], (ast.Eq, ast.NotEq))]
